@@ -11,7 +11,12 @@
 //!      stream's kind sequence (`started (not start/end)* ended`, seqs 0..n-1), of every run's thread
 //!      frames (`spawned (selection compiled)? side_effects* cursor? ended`), exactly-once counts
 //!      (one run_spawned per message, one run_ended per run_spawned, at most one job_ended per job),
-//!      run_ended after the run's own terminal session frame in log order and with its reason.
+//!      run_ended after the run's own terminal session frame in log order and with its reason;
+//!  (c) "whatever the provider does" includes a provider that never stops: `ProviderSpec.forever` answers EVERY
+//!      request with the same response (the last of `reqs`), for every tool_choice shape (auto, required, a named
+//!      function, allowed_tools, none, allowed_tools mode none) and both history modes; the oracle demands that the
+//!      run ends BY ITSELF within `REQUEST_BOUND` provider requests (counted at the provider and as
+//!      openresponses_request_started frames; class `provider-requests-unbounded`) - the request count, not the clock.
 use rv::provider::{sse_event, Scripted, ScriptedProvider, SSE_DONE};
 use rv::*;
 use serde::{Deserialize, Serialize};
@@ -158,7 +163,23 @@ enum Choice {
     OnlyLs,
     NoTools,
     Invalid,
+    /// "required": every function allowed
+    Required,
+    /// {"type":"allowed_tools","tools":[{"type":"function","name":"ls"}]}: only `ls`
+    AllowedLs,
+    /// allowed_tools with mode "none": nothing allowed
+    AllowedModeNone,
+    /// a named function that needs the workspace lock: only `bash`
+    OnlyBash,
 }
+const VALID_CHOICES: [Choice; 7] = [Choice::Auto, Choice::Required, Choice::OnlyLs, Choice::AllowedLs, Choice::OnlyBash, Choice::NoTools, Choice::AllowedModeNone];
+
+/// the provider answers this many requests with the repeated response, then gives up (HTTP 500) so that a run that
+/// would go on for ever is put down instead of spinning behind the later cases
+const FOREVER_CAP: usize = 48;
+/// a run whose provider never stops must end by itself within this many provider requests (tool budget 32: a request
+/// is only made with budget left and every answered round spends some)
+const REQUEST_BOUND: usize = 33;
 
 #[derive(Clone, Debug, PartialEq, Serialize, Deserialize)]
 struct ProviderSpec {
@@ -167,6 +188,24 @@ struct ProviderSpec {
     /// endpoint = a port nobody listens on
     closed_port: bool,
     reqs: Vec<Req>,
+    /// the provider never stops: after `reqs` it goes on answering EVERY request with the last response of `reqs`
+    /// (fresh call ids each time, as a model does) - FOREVER_CAP answers in all, then it gives up
+    #[serde(default)]
+    forever: bool,
+}
+impl ProviderSpec {
+    /// the answers the provider will give, in order
+    fn script(&self) -> Vec<Req> {
+        let mut v = self.reqs.clone();
+        if self.forever {
+            if let Some(last) = self.reqs.last() {
+                while v.len() < FOREVER_CAP {
+                    v.push(last.clone());
+                }
+            }
+        }
+        v
+    }
 }
 
 #[derive(Clone, Debug, PartialEq, Serialize, Deserialize)]
@@ -418,7 +457,7 @@ fn segments(text: &str) -> Vec<(u32, u32)> {
 fn start_provider(tag: &str, p: &ProviderSpec) -> (Option<ScriptedProvider>, String, Vec<Pred>) {
     let mut scripts = vec![];
     let mut preds = vec![];
-    for (i, r) in p.reqs.iter().enumerate() {
+    for (i, r) in p.script().iter().enumerate() {
         match r {
             Req::Stream { events, done, partial_tail, cuts, drop_at } => {
                 let (sc, seen) = build_stream(tag, i, events, *done, *partial_tail, cuts, *drop_at);
@@ -693,6 +732,11 @@ fn oracle(log: &[Line], faults: &[Fault]) -> Vec<(String, String)> {
         let ends = fr.iter().filter(|l| l.ty == "session_ended").count();
         let shape = n >= 2 && fr[0].ty == "session_started" && fr[n - 1].ty == "session_ended" && starts == 1 && ends == 1;
         let seqs = fr.iter().enumerate().all(|(i, l)| l.seq == i as u64);
+        // the conversation is bounded: a session that goes on asking the provider is a run that only ends if the provider stops
+        let asked = fr.iter().filter(|l| l.ty == "openresponses_request_started").count();
+        if asked > REQUEST_BOUND {
+            out.push((format!("session stream {sid}: {asked} provider requests (the tool budget allows at most {REQUEST_BOUND})"), "provider-requests-unbounded".to_string()));
+        }
         if !shape || !seqs {
             let kinds: Vec<String> = fr.iter().take(12).map(|l| format!("{}:{}", l.seq, l.ty)).collect();
             let class = if starts > 1 && fr.iter().filter(|l| l.seq == 0).count() > 1 {
@@ -829,7 +873,15 @@ fn tool_choice(c: Choice) -> rip_provider_openresponses::ToolChoiceParam {
         Choice::OnlyLs => T::specific_function("ls"),
         Choice::NoTools => T::none(),
         Choice::Invalid => T::new(json!({"type": "function"})),
+        Choice::Required => T::required(),
+        Choice::AllowedLs => T::new(json!({"type": "allowed_tools", "tools": [{"type": "function", "name": "ls"}]})),
+        Choice::AllowedModeNone => T::new(json!({"type": "allowed_tools", "tools": [{"type": "function", "name": "ls"}], "mode": "none"})),
+        Choice::OnlyBash => T::specific_function("bash"),
     }
+}
+/// the request validator refuses this tool_choice: the run ends invalid_request before any request is sent
+fn choice_invalid(c: Choice) -> bool {
+    !tool_choice(c).errors().is_empty()
 }
 fn engine_cfg(url: &str, p: &ProviderSpec) -> ripd::verif::OpenResponsesConfig {
     ripd::verif::OpenResponsesConfig {
@@ -933,6 +985,8 @@ struct Exec {
     hang: Option<String>,
     /// panics seen while the case ran (thread name, message, location)
     panics: Vec<String>,
+    /// requests each activity's scripted provider received
+    asked: Vec<Option<usize>>,
 }
 
 const WATCHDOG: Duration = Duration::from_secs(180);
@@ -1230,9 +1284,10 @@ async fn exec_case(c: &Case, root: &Path) -> Result<Exec, String> {
         ids.push(Ids::default());
     }
     let log = read_log(&data);
+    let asked: Vec<Option<usize>> = providers.iter().map(|p| p.as_ref().map(|sp| sp.recorded().len())).collect();
     drop(providers);
     let panics = PANICS.lock().map(|g| g[snaps_before.1.min(g.len())..].to_vec()).unwrap_or_default();
-    Ok(Exec { ids, preds, log, thread, hang, panics })
+    Ok(Exec { ids, preds, log, thread, hang, panics, asked })
 }
 
 // ------------------------------------------------------------------ model terms
@@ -1259,9 +1314,10 @@ fn tool_res(t: Tool, cal: &Calib, expires: bool) -> String {
 }
 fn allowed(c: Choice, t: Tool) -> bool {
     match c {
-        Choice::Auto | Choice::Invalid => true,
-        Choice::OnlyLs => t.name() == "ls",
-        Choice::NoTools => false,
+        Choice::Auto | Choice::Invalid | Choice::Required => true,
+        Choice::OnlyLs | Choice::AllowedLs => t.name() == "ls",
+        Choice::OnlyBash => t.name() == "bash",
+        Choice::NoTools | Choice::AllowedModeNone => false,
     }
 }
 fn call_term(t: Tool, ch: Choice, cal: &Calib) -> String {
@@ -1269,7 +1325,7 @@ fn call_term(t: Tool, ch: Choice, cal: &Calib) -> String {
 }
 fn reqs_term(p: &ProviderSpec, preds: &[Pred], cal: &Calib) -> String {
     let mut out: Vec<String> = vec![];
-    if p.choice == Choice::Invalid {
+    if choice_invalid(p.choice) {
         out.push("RInvalid".into());
     } else if p.closed_port {
         out.push("RSendErr".into());
@@ -1490,7 +1546,7 @@ fn body_sweep(at: u32, r: &mut Rng) -> Vec<Case> {
         }
         let acts = bodies
             .into_iter()
-            .map(|body| Act::Post { input: InputSpec::Prompt, provider: Some(ProviderSpec { stateless: false, choice: Choice::Auto, closed_port: false, reqs: vec![Req::HttpBody { status: *r.pick(&ERR_STATUSES), body }] }) })
+            .map(|body| Act::Post { input: InputSpec::Prompt, provider: Some(ProviderSpec { stateless: false, choice: Choice::Auto, closed_port: false, forever: false, reqs: vec![Req::HttpBody { status: *r.pick(&ERR_STATUSES), body }] }) })
             .collect();
         out.push(Case { faults: vec![], engine: w % 2 == 0, parallel: false, acts, break_summaries: false });
     }
@@ -1526,7 +1582,12 @@ fn gen_cuts(r: &mut Rng) -> Vec<u64> {
 }
 fn gen_provider(r: &mut Rng, engine: bool, caps: &[u32]) -> ProviderSpec {
     let stateless = r.chance(1, 3);
-    let choice = if engine { *r.pick(&[Choice::Auto, Choice::OnlyLs, Choice::OnlyLs, Choice::NoTools, Choice::Invalid]) } else { Choice::Auto };
+    let choice = if engine { *r.pick(&[Choice::Auto, Choice::OnlyLs, Choice::OnlyLs, Choice::NoTools, Choice::Invalid, Choice::Required, Choice::AllowedLs, Choice::AllowedModeNone, Choice::OnlyBash]) } else { Choice::Auto };
+    if r.chance(1, 12) {
+        // a provider that never stops asking for tools: 0..2 ordinary rounds, then the same round for ever
+        let prefix = r.below(3) as usize;
+        return forever_provider(r, stateless, if choice == Choice::Invalid { Choice::NoTools } else { choice }, prefix);
+    }
     let closed_port = r.chance(1, 14);
     let rounds = *r.pick(&[0u64, 0, 1, 1, 2, 3]);
     let mut reqs = vec![];
@@ -1555,7 +1616,22 @@ fn gen_provider(r: &mut Rng, engine: bool, caps: &[u32]) -> ProviderSpec {
             _ => Req::Stream { events, done: r.chance(5, 6), partial_tail: false, cuts: gen_cuts(r), drop_at: None },
         });
     }
-    ProviderSpec { stateless, choice, closed_port, reqs }
+    ProviderSpec { stateless, choice, closed_port, reqs, forever: false }
+}
+/// `prefix` ordinary tool rounds, then one round of 1..3 calls repeated for ever (every round carries a response id,
+/// so the stateful follow-up is possible too)
+fn forever_provider(r: &mut Rng, stateless: bool, choice: Choice, prefix: usize) -> ProviderSpec {
+    let mut reqs = vec![];
+    for _ in 0..=prefix {
+        let calls: Vec<Tool> = (0..r.range(1, 3)).map(|_| gen_call_tool(r)).collect();
+        reqs.push(Req::Stream { events: gen_events(r, &calls, true), done: r.chance(5, 6), partial_tail: false, cuts: gen_cuts(r), drop_at: None });
+    }
+    ProviderSpec { stateless, choice, closed_port: false, reqs, forever: true }
+}
+/// the stubborn model of the seeded change: every answer is exactly these calls, nothing else
+fn stubborn_provider(stateless: bool, choice: Choice, calls: &[Tool]) -> ProviderSpec {
+    let events: Vec<Sse> = std::iter::once(Sse::Created { id: true }).chain(calls.iter().map(|t| Sse::Call(*t))).collect();
+    ProviderSpec { stateless, choice, closed_port: false, reqs: vec![text_req(events)], forever: true }
 }
 fn gen_call_tool(r: &mut Rng) -> Tool {
     if r.chance(1, 8) {
@@ -1647,7 +1723,7 @@ fn text_req(events: Vec<Sse>) -> Req {
     Req::Stream { events, done: true, partial_tail: false, cuts: vec![], drop_at: None }
 }
 fn corpus() -> Vec<Case> {
-    let p = |reqs: Vec<Req>, stateless: bool, choice: Choice| ProviderSpec { stateless, choice, closed_port: false, reqs };
+    let p = |reqs: Vec<Req>, stateless: bool, choice: Choice| ProviderSpec { stateless, choice, closed_port: false, forever: false, reqs };
     let post = |reqs: Vec<Req>| Act::Post { input: InputSpec::Prompt, provider: Some(p(reqs, false, Choice::Auto)) };
     vec![
         // text only
@@ -1732,6 +1808,9 @@ fn label(c: &Case) -> Vec<String> {
                 if let Some(p) = provider {
                     v.push(format!("choice={:?}", p.choice));
                     v.push(format!("rounds={}", p.reqs.len()));
+                    if p.forever {
+                        v.push("provider=answers-for-ever".into());
+                    }
                     if p.closed_port {
                         v.push("fault=connect-refused".into());
                     }
@@ -1811,7 +1890,7 @@ fn main() {
         }
     }));
     let mut res = RunResult::new("C07", &a);
-    res.rule = "case = fresh store + 1..4 activities (linked runs through POST /threads/{id}/messages or the engine, unlinked session inputs, a compaction job), sequential or all at once; each prompt run talks to its own scripted provider (text, 1-3 tool rounds, malformed JSON, schema-invalid events, 4xx/5xx, drop at byte k, missing [DONE], partial tail, empty body, connect refused, invalid request; tools ok/failing/unknown/invalid args/barred by tool_choice/timeout; tool and checkpoint envelopes); non-trivial = a provider or envelope run; distinct by hash of the canonical case".into();
+    res.rule = "case = fresh store + 1..4 activities (linked runs through POST /threads/{id}/messages or the engine, unlinked session inputs, a compaction job), sequential or all at once; each prompt run talks to its own scripted provider (text, 1-3 tool rounds, malformed JSON, schema-invalid events, 4xx/5xx, drop at byte k, missing [DONE], partial tail, empty body, connect refused, invalid request; tools ok/failing/unknown/invalid args/barred by tool_choice/timeout; tool and checkpoint envelopes; a provider that answers every request with the same tool round for ever x tool_choice auto/required/named function/allowed_tools/none x both history modes); non-trivial = a provider or envelope run; distinct by hash of the canonical case".into();
     let rt = tokio::runtime::Builder::new_multi_thread().worker_threads(4).enable_all().build().expect("runtime");
     let cal = calibrate(&rt);
     res.notes.push(format!("tool calibration (stdout, stderr frames): {cal:?}"));
@@ -1860,6 +1939,24 @@ fn main() {
             cases.push(Case { faults: vec![], engine, parallel: false, break_summaries: false, acts: vec![Act::InputRace { rounds: rounds / 3, n: 4, input: InputSpec::Prompt, stepped: false }] });
             cases.push(Case { faults: vec![], engine, parallel: false, break_summaries: false, acts: vec![Act::InputRace { rounds: 3, n: 3, input: InputSpec::ToolEnv { tool: Tool::BashEcho, tmo: 0 }, stepped: true }] });
         }
+        // a provider that never stops: every tool_choice shape x both history modes x (one call / a mixed round / three
+        // calls), linked through the engine; and through the router as the app-level default of an unlinked session.
+        // quick: one answer shape per (choice, history mode), rotating with the seed; thorough: all of them
+        let shapes: [&[Tool]; 3] = [&[Tool::BashEcho], &[Tool::Ls, Tool::BashEcho], &[Tool::ReadOk, Tool::Unknown, Tool::WriteBadArgs]];
+        for (ci, ch) in VALID_CHOICES.iter().enumerate() {
+            for (si, stateless) in [false, true].iter().enumerate() {
+                for (k, calls) in shapes.iter().enumerate() {
+                    if !a.thorough() && (ci + si + k + a.seed as usize) % 3 != 0 {
+                        continue;
+                    }
+                    let p = stubborn_provider(*stateless, *ch, calls);
+                    let linked = (ci + k) % 2 == 0;
+                    let act = if linked { Act::Post { input: InputSpec::Prompt, provider: Some(p) } } else { Act::Input { input: InputSpec::Prompt, provider: Some(p) } };
+                    // unlinked runs go through the router now and then (the tool_choice then comes from the app-level default)
+                    cases.push(Case { faults: vec![], engine: linked || k == 0, parallel: false, break_summaries: false, acts: vec![act] });
+                }
+            }
+        }
         // the read tool's own cut, at every offset of a file of 2-/3-/4-byte characters (quick: every 5th)
         let ks: Vec<u8> = (0..=78u8).filter(|k| a.thorough() || (*k as u64 + a.seed) % 5 == 0).collect();
         for chunk in ks.chunks(4) {
@@ -1897,7 +1994,7 @@ fn main() {
                 for k in ks {
                     let mk = |events: &Vec<Sse>, drop_at: Option<u64>| Req::Stream { events: events.clone(), done: true, partial_tail: false, cuts: if k % 2 == 0 { vec![333, 666] } else { vec![] }, drop_at };
                     let reqs = if which == 0 { vec![mk(&ev0, Some(k)), mk(&ev1, None)] } else { vec![mk(&ev0, None), mk(&ev1, Some(k))] };
-                    let p = ProviderSpec { stateless: b % 3 == 0, choice: Choice::Auto, closed_port: false, reqs };
+                    let p = ProviderSpec { stateless: b % 3 == 0, choice: Choice::Auto, closed_port: false, forever: false, reqs };
                     cases.push(Case { faults: vec![], engine: false, parallel: false, break_summaries: false, acts: vec![Act::Post { input: InputSpec::Prompt, provider: Some(p) }] });
                 }
             }
@@ -1938,6 +2035,24 @@ fn main() {
             bad = true;
             res.impl_panics += 1;
             res.oracle_violations.push(OracleViolation { case_id: i as i64, what: format!("a task panicked while the case ran: {p}"), class: "panic".into(), replay: cj.clone() });
+        }
+        // a provider that never stops: the run ends by itself within REQUEST_BOUND requests (count, not clock)
+        for (k, a_) in c.acts.iter().enumerate() {
+            let (Act::Post { provider: Some(p), .. } | Act::Input { provider: Some(p), .. }) = a_ else { continue };
+            let Some(n) = ex.asked.get(k).copied().flatten() else { continue };
+            if p.forever && n > REQUEST_BOUND {
+                bad = true;
+                let sid = ex.ids.get(k).and_then(|i| i.sid.clone()).unwrap_or_default();
+                let ended: Vec<String> = ex.log.iter().filter(|l| l.ty == "session_ended" && l.stream == sid).map(|l| l.s("reason")).collect();
+                let gave_up = if n > FOREVER_CAP { format!("it stopped only when the provider gave up after {FOREVER_CAP} answers") } else { "it stopped late".to_string() };
+                res.oracle_violations.push(OracleViolation {
+                    case_id: i as i64,
+                    what: format!("the provider answers every request with the same tool round (tool_choice {:?}, stateless_history {}); the run asked {n} times - {gave_up} (end frames: {ended:?}); the tool budget of 32 calls allows at most {REQUEST_BOUND} requests: against a provider that never stops this run never ends", p.choice, p.stateless),
+                    class: "provider-requests-unbounded".into(),
+                    replay: cj.clone(),
+                });
+                break;
+            }
         }
         // concurrent inputs to one session: exactly one of them starts the session's run
         for id in &ex.ids {
